@@ -255,5 +255,5 @@ func TestReplayAnsweredThenDead(t *testing.T) {
 	if ok, _ := vh.ReplayCase("answered-then-dead", &c); !ok {
 		t.Skip("no replay for this part")
 	}
-	recL.Check(t, &c, func() vh.Outcome { return runLive(t, &c) })
+	recL.Check(t, &c, func() vh.Outcome { return vh.Confirm(func(int) vh.Outcome { return runLive(t, &c) }) })
 }
